@@ -77,6 +77,37 @@ type srcCase struct {
 
 type SLevel uint8
 
+// user-defined named collection / element / key types and user-declared pointers to leaves (C16's universe)
+type SStrs []string
+type SDict map[string]string
+type SCount int
+type SName string
+
+// which sources can be given a leaf of this kind at all (the others are still run: they must not panic)
+func envSupports(kind string) bool {
+	switch kind {
+	case "time", "durs", "structs":
+		return false
+	}
+	return true
+}
+
+func flagSupports(kind string) bool {
+	switch kind {
+	case "durs", "structs", "nstrs", "nmap", "lnamed", "mnamed", "knamed":
+		return false // no flag is registered for such a leaf
+	}
+	return true
+}
+
+func docSupports(kind string) bool {
+	switch kind {
+	case "named", "c64", "knamed":
+		return false // not expressible alike in all four formats
+	}
+	return true
+}
+
 // SItem is the element of the slice-of-struct leaf kind (decoders only)
 type SItem struct {
 	N int `dials:"n"`
@@ -169,6 +200,22 @@ func kindType(k string) reflect.Type {
 		return reflect.TypeOf(float32(0))
 	case "c64":
 		return reflect.TypeOf(complex64(0))
+	case "nstrs":
+		return reflect.TypeOf(SStrs(nil))
+	case "nmap":
+		return reflect.TypeOf(SDict(nil))
+	case "lnamed":
+		return reflect.TypeOf([]SCount(nil))
+	case "mnamed":
+		return reflect.TypeOf(map[string]SCount(nil))
+	case "knamed":
+		return reflect.TypeOf(map[SName]string(nil))
+	case "pint":
+		return reflect.TypeOf((*int)(nil))
+	case "pstrs":
+		return reflect.TypeOf((*[]string)(nil))
+	case "pmap":
+		return reflect.TypeOf((*map[string]string)(nil))
 	}
 	panic("harness: unknown kind " + k)
 }
@@ -248,6 +295,24 @@ func leafValue(kind string, id int) (reflect.Value, string, interface{}) {
 		return reflect.ValueOf(float32(id) + 0.25), fmt.Sprintf("%d.25", id), float64(id) + 0.25
 	case "c64":
 		return reflect.ValueOf(complex(float32(id), float32(2))), fmt.Sprintf("(%d+2i)", id), nil
+	case "nstrs":
+		v := SStrs{fmt.Sprintf("a%d", id), fmt.Sprintf("b,%d", id)}
+		return reflect.ValueOf(v), fmt.Sprintf(`"a%d","b,%d"`, id, id), []interface{}{v[0], v[1]}
+	case "nmap":
+		return reflect.ValueOf(SDict{fmt.Sprintf("k%d", id): "v:w"}), fmt.Sprintf(`"k%d":"v:w"`, id), map[string]interface{}{fmt.Sprintf("k%d", id): "v:w"}
+	case "lnamed":
+		return reflect.ValueOf([]SCount{SCount(id), SCount(-id)}), fmt.Sprintf("%d,-%d", id, id), []interface{}{id, -id}
+	case "mnamed":
+		return reflect.ValueOf(map[string]SCount{fmt.Sprintf("k%d", id): SCount(id)}), fmt.Sprintf(`"k%d":%d`, id, id), map[string]interface{}{fmt.Sprintf("k%d", id): id}
+	case "knamed":
+		return reflect.ValueOf(map[SName]string{SName(fmt.Sprintf("k%d", id)): "v"}), fmt.Sprintf(`"k%d":"v"`, id), map[string]interface{}{fmt.Sprintf("k%d", id): "v"}
+	case "pint": // pointer kinds: the pointee (results are compared after dereferencing)
+		return reflect.ValueOf(2000 + id), fmt.Sprint(2000 + id), 2000 + id
+	case "pstrs":
+		v := []string{fmt.Sprintf("p%d", id), "q"}
+		return reflect.ValueOf(v), fmt.Sprintf(`"p%d","q"`, id), []interface{}{v[0], v[1]}
+	case "pmap":
+		return reflect.ValueOf(map[string]string{fmt.Sprintf("pk%d", id): "v"}), fmt.Sprintf(`"pk%d":"v"`, id), map[string]interface{}{fmt.Sprintf("pk%d", id): "v"}
 	}
 	panic("harness: no value for " + kind)
 }
@@ -476,9 +541,10 @@ func (r *srcRun) guard(src string, f func()) {
 }
 
 func (r *srcRun) runEnv() {
+	judged := true
 	for _, l := range r.c.Expect.Leaves {
-		if l.Kind == "time" || l.Kind == "durs" || l.Kind == "structs" {
-			return // not a string-castable leaf: outside the environment source's domain
+		if !envSupports(l.Kind) {
+			judged = false // not a string-castable leaf: outside the environment source's domain; it still must not panic
 		}
 	}
 	names := map[string]bool{}
@@ -492,6 +558,9 @@ func (r *srcRun) runEnv() {
 		_, text, _ := leafValue(l.Kind, l.ID)
 		if r.c.Garbage != "" {
 			text = r.c.Garbage
+		}
+		if !envSupports(l.Kind) {
+			text = "x"
 		}
 		prim := envName(l.Env, r.c.Prefix)
 		if f.SrcTag {
@@ -525,7 +594,7 @@ func (r *srcRun) runEnv() {
 	}()
 	r.guard("env", func() {
 		res, err := (&env.Source{Prefix: pfx}).Value(context.Background(), dials.NewType(r.ptyp))
-		r.judge("env", "C11", res, err, r.c.Garbage != "")
+		r.judge("env", "C11", res, err, r.c.Garbage != "" || !judged)
 	})
 }
 
@@ -535,12 +604,16 @@ type flagger interface {
 
 func (r *srcRun) runFlags(which string) {
 	var args []string
+	judged := true
 	for _, l := range r.c.Expect.Leaves {
-		if l.Kind == "durs" || l.Kind == "structs" {
-			return // no flag is registered for this kind
+		if !flagSupports(l.Kind) {
+			judged = false // no flag is registered for this kind; constructing the set and asking for its value must still work
 		}
 	}
 	for _, l := range r.c.Expect.Leaves {
+		if !flagSupports(l.Kind) {
+			continue
+		}
 		f := findField(r.c.Fields, l.ID)
 		_, text, _ := leafValue(l.Kind, l.ID)
 		if r.c.Garbage != "" {
@@ -582,14 +655,14 @@ func (r *srcRun) runFlags(which string) {
 			src, err = dpflag.NewSetWithArgs(dpflag.DefaultFlagNameConfig(), tmpl, args)
 		}
 		if err != nil {
-			if r.c.Garbage == "" {
+			if r.c.Garbage == "" && judged {
 				r.add("C12", which, "constructing the flag set failed: %v", err)
 			}
 			return
 		}
 		res, verr := src.Value(context.Background(), dials.NewType(r.ptyp))
 		before := len(r.mis)
-		r.judge(which, "C12", res, verr, r.c.Garbage != "")
+		r.judge(which, "C12", res, verr, r.c.Garbage != "" || !judged)
 		if len(r.mis) > before && r.c.Garbage == "" {
 			var names []string
 			if fs, ok := src.(*dflag.Set); ok {
@@ -613,6 +686,11 @@ func (r *srcRun) fillDefaults(fs []srcField, v reflect.Value) {
 			continue
 		}
 		dv, _, _ := leafValue(f.Kind, f.ID+500)
+		if fv.Kind() == reflect.Ptr && dv.Kind() != reflect.Ptr {
+			p := reflect.New(dv.Type())
+			p.Elem().Set(dv)
+			dv = p
+		}
 		fv.Set(dv)
 	}
 }
@@ -624,7 +702,7 @@ func (r *srcRun) docTree() (map[string]interface{}, bool) {
 	build = func(fs []srcField) map[string]interface{} {
 		m := map[string]interface{}{}
 		for _, f := range fs {
-			if f.Nest == "emb" || f.Tag.Style == "none" || f.Tag.Style == "" || f.Kind == "named" || f.Kind == "c64" {
+			if f.Nest == "emb" || f.Tag.Style == "none" || f.Tag.Style == "" || (f.Nest == "" && !docSupports(f.Kind)) {
 				ok = false // outside "types whose fields carry dials tags" / not expressible alike in all four formats
 				continue
 			}
@@ -640,7 +718,7 @@ func (r *srcRun) docTree() (map[string]interface{}, bool) {
 			}
 			_, _, doc := leafValue(f.Kind, f.ID)
 			var empty interface{} = []interface{}{}
-			if f.Kind == "smap" {
+			if f.Kind == "smap" || f.Kind == "nmap" || f.Kind == "mnamed" || f.Kind == "knamed" {
 				empty = map[string]interface{}{}
 			}
 			if f.Pat == "primary" || f.Pat == "both" {
@@ -748,9 +826,9 @@ func yamlText(v interface{}, indent string, b *strings.Builder) {
 
 func (r *srcRun) runDecoders() {
 	tree, ok := r.docTree()
-	if !ok {
-		return
-	}
+	// outside the property's scope (untagged fields, kinds without a common spelling) the decoders are still run on what
+	// can be written down: they must not panic
+	judged := ok
 	jb, _ := json.Marshal(tree)
 	docs := map[string]string{"json": string(jb), "cue": string(jb)}
 	var tb, yb strings.Builder
@@ -786,8 +864,8 @@ func (r *srcRun) runDecoders() {
 			src := &static.StringSource{Data: docs[name], Decoder: dec}
 			res, err := src.Value(context.Background(), dials.NewType(r.ptyp))
 			before := len(r.mis)
-			r.judge(name, "C13", res, err, r.c.Garbage != "")
-			if err == nil && len(r.mis) == before {
+			r.judge(name, "C13", res, err, r.c.Garbage != "" || !judged)
+			if err == nil && len(r.mis) == before && judged {
 				results[name] = res
 			}
 			if len(r.mis) > before && r.c.Garbage == "" {
@@ -795,7 +873,7 @@ func (r *srcRun) runDecoders() {
 			}
 		})
 	}
-	if r.c.Garbage == "" && !r.c.Expect.Error && len(tree) > 0 {
+	if r.c.Garbage == "" && !r.c.Expect.Error && len(tree) > 0 && judged {
 		// single-token corruptions of the valid documents: an error, never a (partially filled) value
 		j := docs["json"]
 		corrupt := map[string][]string{
